@@ -215,6 +215,7 @@ type summKey struct {
 	fn   *ssa.Function
 	u    unit
 	spec bool // specialised to u (callee's field parameter bound to the subject field)
+	full bool // emitter roots summarised too
 }
 
 func isFieldPtr(t types.Type) bool {
@@ -803,7 +804,7 @@ func (c *depCtx) callDeps(call *ssa.Call) src {
 				spec = true
 			}
 		}
-		d |= c.m.summary(f, c.u, spec)
+		d |= c.m.summary(f, c.u, spec, c.noOpaque)
 	}
 	_ = name
 	return d
@@ -993,9 +994,10 @@ func (c *depCtx) ctrlDepsOfPreds(b *ssa.BasicBlock) src {
 }
 
 // summary: every source a helper reads (transitively) in blocks feasible for u.
-func (m *matrix) summary(f *ssa.Function, u *unit, spec bool) src {
+func (m *matrix) summary(f *ssa.Function, u *unit, spec bool, full bool) src {
 	var key summKey
 	key.fn = f
+	key.full = full
 	if u != nil && spec {
 		key.u, key.spec = *u, true
 	}
@@ -1011,6 +1013,7 @@ func (m *matrix) summary(f *ssa.Function, u *unit, spec bool) src {
 		uu = u
 	}
 	c := m.ctx(f, uu)
+	c.noOpaque = full
 	var d src
 	forEachInstr(f, func(b *ssa.BasicBlock, ins ssa.Instruction) {
 		if !m.feasible(f, b, uu) {
